@@ -17,7 +17,7 @@ LEVEL = 'exploration'
 BUDGET = {'quick': 200, 'thorough': 3000}
 RULE = ('clean cases: (moduli subset, style, algorithm set, banner class) - quick samples 500, thorough enumerates all 9216; faulty cases: the same with 1-2 faults on probe '
         'connections. non-trivial: >= 1 GEX request was answered; distinct by (moduli subset, style, algorithm set, banner class, request-log shape).')
-ASSUMPTIONS = ['monotone policies only (the quantifier)', 'OpenSSH banner + 2048 + refused follow-up: both "2048" and "no size" are accepted (statement silent)',
+ASSUMPTIONS = ['monotone policies only (the quantifier)', 'OpenSSH banner + first-pass 2048: the reported size is the follow-up probe\'s answer, hence no size when that probe is refused, stalled or garbled',
                'requests (1024,2048,8192) are the host-key probe using a GEX algorithm and are not part of the GEX test sequence']
 
 SIZES = [512, 768, 1024, 1536, 2048, 3072, 4096, 6144, 8192]
@@ -66,6 +66,20 @@ def cases(seed, tier):
         yield {'kind': 'clean', 'profile': mk(sub, style, ALGSETS[ai], bclass, rng, hostkey_via_gex=rng.random() < 0.1), 'bclass': bclass,
                'opts': rng.choice([['-n'], ['-n'], ['-j'], ['-n', '-v'], ['-n', '-b']]), 'net': gen.rand_net(rng) if rng.random() < 0.5 else {'rtt_us': 100},
                'knobs': gen.rand_knobs(rng), 'pseed': rng.getrandbits(32)}
+    for i in range(NFAULTY[tier] // 4):
+        # directed: an OpenSSH server whose first pass ends at 2048 through the fallback, and a fault at one of the last probes
+        rng = gen.case_rng(seed, ID, 'fd', i)
+        sub = rng.choice([(3072, 4096), (6144, 8192), (4096,), (2048, 3072), (3072,)])
+        ai = rng.randrange(3)
+        prof = mk(sub, 'openssh', ALGSETS[ai], 'openssh', rng)
+        prof['gex']['grp_min'] = rng.choice([1024, 2048])
+        nalg = len(ALGSETS[ai])
+        conn = rng.choice([1 + 9 * nalg, 9 * nalg, 9, 10, 8, 1 + 9 * nalg - rng.randrange(0, 4)])
+        kind = rng.choice(['refuse', 'truncate_stall', 'truncate_close', 'garbage', 'close_before'])
+        f = {'conn': conn, 'kind': kind}
+        if kind != 'refuse':
+            f.update({'msg': rng.choice(['group', 'group', 'kexinit', 'banner']), 'off': rng.choice([0, 6]), 'n': 40})
+        yield {'kind': 'faulty', 'profile': prof, 'bclass': 'openssh', 'faults': [f], 'opts': ['-n'], 'net': {'rtt_us': 100}, 'knobs': {}, 'pseed': rng.getrandbits(32), 'timeout': 1}
     for i in range(NFAULTY[tier]):
         rng = gen.case_rng(seed, ID, 'f', i)
         sub, style, ai, bclass = rng.choice(combos)
@@ -163,7 +177,7 @@ def run_case(case, ctx):
                 else:
                     fa = follow[0]['answer']
                     if fa is None:
-                        accept = {2048, None}
+                        accept = {None}        # the reported size is *defined* as the follow-up's answer: none, so no size
                     else:
                         accept = {fa}
                         expl = fa != 2048
@@ -178,6 +192,9 @@ def run_case(case, ctx):
         else:
             if size is not None and size not in handed:
                 out.append(viol('C12 faulty probe phase: reported a size the server never handed out', 'alg=%s reported=%r handed=%r faults=%r' % (alg, size, handed, case['faults'])))
+            elif size == 2048 and openssh and not any((r['min'], r['n'], r['max']) == (2048, 3072, 4096) and r['answer'] == 2048 and r['delivered'] for r in reqs):
+                out.append(viol('C12 OpenSSH fallback size 2048 reported although the follow-up 2048-4096 probe did not confirm it', 'alg=%s requests/answers=%r faults=%r' % (
+                    alg, [((r['min'], r['n'], r['max']), r['answer'], r['delivered']) for r in reqs], case['faults'])))
         # notes by threshold
         if size is not None:
             has_small = any(t.startswith('using small') and 'modulus' in t for t in note_txt)
